@@ -53,7 +53,7 @@ VALID = {
     "log_level": ["DEBUG", "INFO", "WARNING", "ERROR", "CRITICAL"],
     "output_format": ["text", "json", "yaml"],
     "max_retries": ["0", "3", "10", "007", "1_000", "+4"],
-    "timeout": ["30", "0.5", "1e3", "7"],
+    "timeout": ["30", "0.5", "1e3", "7", "30.0", "7.0"],
     "app_name": ["myapp", "my app", "ลินท์"],
 }
 INVALID = {
@@ -209,6 +209,18 @@ def gen(run_seed: int, tier: str) -> dict:
                 key = t.pick(FREE_KEYS, "key")
                 val = t.pick(FREE_VALUES, "val")
             events.append({"ev": "set", "file": f, "key": key, "value": val})
+            if t.chance(1, 4, "retype"):
+                # set the same key again to an equal value of another type (30 -> 30.0, 1 -> true, 2.0 -> 2)
+                tv = typed(val)
+                alt = None
+                if isinstance(tv, bool):
+                    alt = "1" if tv else "0"
+                elif isinstance(tv, int):
+                    alt = t.pick([f"{tv}.0", "true" if tv == 1 else f"{tv}.0", f"{tv}e0"], "retype_int")
+                elif isinstance(tv, float) and tv == tv and abs(tv) < 1e15 and tv == int(tv):
+                    alt = str(int(tv))
+                if alt is not None:
+                    events.append({"ev": "set", "file": f, "key": key, "value": alt})
         elif k < 65:
             events.append({"ev": "get", "file": t.pick(APP_FILES, "file"), "key": t.pick(sorted(VALID) + FREE_KEYS, "key")})
         elif k < 70:
